@@ -1,6 +1,8 @@
 """C10 — parsing: fixed precedence table, layout-insensitive, all plain names usable (DESIGN §4 C10)."""
 from lib import hir as H
 from lib.peg import Grammar
+from lib import sig as S
+CORE = "blots_core::"
 from lib.facts import CheckerError
 
 NEED = ("dev",)
@@ -248,6 +250,12 @@ def run(ctx):
     rows = precedence_rows(core)
     ctx.units["precedence_rows"] = len(rows)
     ctx.not_decided += ["layout insensitivity in general (only the structural hazards R3, R4, R5, R7)", "pest's PrattParser implementation"]
+
+    # ---------------- R9
+    try:
+        names_from_tokens(ctx, "C10.R9", core, G)
+    except CheckerError as ex_:
+        ctx.inst("C10.R9", "sites", None, "not decided: %s" % ex_, None)
 
     # ---------------- R1
     ctx.rule("C10.R1", "effective binding order (PRECEDENCE_TABLE + registration order in build_pratt_parser) equals the documented level list: every operator once, on its level, with its associativity", floor=30)
@@ -579,3 +587,145 @@ def run(ctx):
             n7 += 1
             ctx.inst("C10.R7", "rule=%s" % n, False, "rule %s is atomic by cascade (all callers atomic), admits NEWLINE between its tokens but no WHITESPACE: spaces legal in sibling constructs are a parse error here" % n, "blots-core/src/grammar.pest")
     ctx.inst("C10.R7", "grammar#cascade-scan", True, "scanned %d rules; %d atomic-by-cascade rules with newline-only gaps" % (len(G.order), n7), "blots-core/src/grammar.pest")
+
+
+# ------------------------------------------------------------------ R9 names come from token pairs
+TEXT_OPS = {"to_string", "to_owned", "into", "clone", "trim_start_matches", "trim_end_matches", "trim_matches", "replace", "replacen", "strip_prefix", "strip_suffix",
+            "unwrap", "unwrap_or", "expect", "as_ref", "to_lowercase", "as_str_"}
+TRIM_OPS = {"trim", "trim_start", "trim_end", "split_whitespace", "split_ascii_whitespace"}
+NAME_SINKS = ("values::LambdaArg::", "ast::Expr::Identifier", "ast::Expr::InputReference", "ast::Expr::String", "ast::RecordKey::Static", "ast::RecordKey::Shorthand",
+              "ast::Expr::Assignment", "ast::Expr::DotAccess")
+
+
+def text_source(n, env, ops=(), depth=0):
+    """(receiver of the `.as_str()` on a pest pair that a text expression is derived from, env, text operations applied) or None"""
+    n = H.strip(n)
+    k = H.kind(n)
+    if depth > 12:
+        return None
+    if k == "MethodCall":
+        if n["name"] == "as_str" and "pest::iterators" in (n.get("recv_ty") or (n["recv"].get("ty") or "")):
+            return n["recv"], env, ops
+        if n["name"] in TEXT_OPS or n["name"] in TRIM_OPS:
+            return text_source(n["recv"], env, ops + (n["name"],), depth + 1)
+        return None
+    if k == "Index":
+        return text_source(n["e"], env, ops + ("slice",), depth + 1)
+    if k == "Path":
+        l = n["res"].get("local")
+        if l is not None and l in env.inline:
+            init, e2 = env.inline[l]
+            return text_source(init, e2, ops, depth + 1)
+        return None
+    if k == "Call" and H.last(n.get("def") or "") in ("from", "to_string", "to_owned") and n.get("args"):
+        return text_source(n["args"][0], env, ops, depth + 1)
+    return None
+
+
+def pair_rules(n, env, guards, depth=0):
+    """('pair', {rules}) / ('pairs', {rules of the parent pair}) for an expression denoting a pest pair / the children of one; None if unknown"""
+    n = H.strip(n)
+    k = H.kind(n)
+    if depth > 12:
+        return None
+    if k == "Path":
+        l = n["res"].get("local")
+        if l is None:
+            return None
+        for g in reversed(guards):
+            if g[0] == "arm" and len(g) > 3:
+                sc = H.strip(g[3])
+                if H.kind(sc) == "MethodCall" and sc["name"] == "as_rule" and H.path_local(sc["recv"]) == l:
+                    vs = {H.last(v) for v in H.pat_variants(g[1]["pat"]) if "::Rule::" in v}
+                    if vs and g[1].get("guard") is None or vs:
+                        return ("pair", vs)
+        if l in env.inline:
+            init, e2 = env.inline[l]
+            ty = (H.strip(init).get("ty") or "")
+            if "Pairs<" in ty:
+                return None  # an iterator held in a local: which child `next()` yields depends on the calls before it
+            return pair_rules(init, e2, guards, depth + 1)
+        return None
+    if k == "MethodCall":
+        nm = n["name"]
+        if nm in ("unwrap", "expect", "clone", "unwrap_or_else"):
+            return pair_rules(n["recv"], env, guards, depth + 1)
+        if nm == "into_inner":
+            r = pair_rules(n["recv"], env, guards, depth + 1)
+            return ("pairs", r[1]) if r and r[0] == "pair" else None
+        if nm == "next":
+            r = pair_rules(n["recv"], env, guards, depth + 1)
+            return ("first", r[1]) if r and r[0] == "pairs" else None
+    return None
+
+
+def names_from_tokens(ctx, rid, core, G):
+    ctx.rule(rid, "text that becomes a name, key or string in the tree is the text of a pair that cannot contain optional layout (an atomic token, or the single token child of a wrapper): the text of a composite pair includes the spaces pest admits between its parts", floor=6)
+    from lib import scope
+    n_sites = 0
+    for name, f0 in sorted(core.hir.items()):
+        if "::tests::" in name or f0.get("kind") not in ("Fn", "AssocFn") or not any("pest::iterators::pair" in t for t in f0.get("inputs", [])):
+            continue
+        f = core.hir_fn(name)
+
+        def is_sink(n):
+            if H.kind(n) == "Call":
+                d = (H.strip(n["f"]).get("res") or {}).get("def") or ""
+                return any(s in d for s in NAME_SINKS)
+            if H.kind(n) == "Struct":
+                return any(s in ((n.get("res") or {}).get("def") or "") for s in NAME_SINKS)
+            return False
+        for n, e, g in scope.sites(f["body"], is_sink, S.Env()):
+            if H.kind(n) == "Call":
+                d = (H.strip(n["f"]).get("res") or {}).get("def") or ""
+                args = [("0", a) for a in n["args"] if "String" in (a.get("ty") or "")]
+            else:
+                d = (n.get("res") or {}).get("def") or ""
+                args = [(fl["name"], fl["e"]) for fl in n["fields"] if (fl["e"].get("ty") or "") == "alloc::string::String"]
+            for an, a in args:
+                ts = text_source(a, e)
+                if ts is None:
+                    continue
+                recv, e2, ops = ts
+                pr = pair_rules(recv, e2, g)
+                key = "%s#%s.%s" % (name.replace(CORE, ""), d.replace(CORE, ""), an)
+                if pr is None:
+                    ctx.notes.append("%s: the pair the text is read from was not identified (%s)" % (key, H.loc(n)))
+                    continue
+                kind_, rules_ = pr
+                if kind_ == "first":
+                    rules_ = set().union(*[G.first_children(r) for r in rules_ if r in G.rules]) if rules_ else set()
+                    kind_ = "pair"
+                    exact = all(len(G.first_children(r)) == 1 for r in pr[1] if r in G.rules)
+                else:
+                    exact = True
+                if not rules_ or any(r not in G.rules for r in rules_):
+                    continue
+                n_sites += 1
+                if kind_ == "pair":
+                    lay = {r: G.layout(r) for r in rules_}
+                else:
+                    # Pairs::as_str: from the start of the first child to the end of the last one
+                    lay = {}
+                    for r in rules_:
+                        kids = G.children(G.expr(r))
+                        sub = [G.layout(c) for c in kids]
+                        cm = G.child_max(r)
+                        if "admits" in sub or ((cm is None or cm > 1) and G.layout(r) == "admits"):
+                            lay[r] = "admits"
+                        elif cm is not None and cm <= 1 and all(x == "free" for x in sub):
+                            lay[r] = "free"
+                        else:
+                            lay[r] = "unknown"
+                bad = sorted(r for r, v in lay.items() if v == "admits")
+                unk = sorted(r for r, v in lay.items() if v == "unknown")
+                trimmed = bool(set(ops) & TRIM_OPS)
+                if bad and exact and not trimmed:
+                    v = False
+                elif bad or unk:
+                    v = None
+                else:
+                    v = True
+                ctx.inst(rid, key + "@" + "|".join(sorted(rules_)), v, "text of %s %s (%s); may contain optional layout: %s%s" % ("the pair" if kind_ == "pair" else "the children of", sorted(rules_), "then " + ",".join(ops) if ops else "as is", bad or "no", "; whitespace is trimmed afterwards" if trimmed else ""), H.loc(n))
+    if n_sites == 0:
+        ctx.inst(rid, "sites", None, "no name built from a pair's text was identified in the AST builder", None)
